@@ -121,6 +121,10 @@ DataOf(c) == IF InlineData
              THEN {NoData, c, Append(c, "a")} \cup {Flip(c, i) : i \in {1} \cap (1..Len(c))}
              ELSE {NoData}
 
+\* the blob file of a layout: with scn.late it still holds the intended content when it is opened
+\* and is overwritten with the corrupted content before the caller rewinds (the registry side of
+\* the same story is a seek-restart reply served from another source)
+FileAtOpen == IF scn.late THEN scn.intended ELSE scn.served
 Inline == IF scn.data = NoData THEN <<>> ELSE scn.data
 \* types/descriptor/descriptor.go:GetData
 DataOK == Len(Inline) = scn.size /\ Inline = scn.intended
@@ -137,8 +141,9 @@ Init ==
   /\ \E c \in Content : \E sz \in SizesOf(c) : \E sv \in ServedOf(c) : \E d \in DataOf(c) :
      \E sch \in Schemes : \E v \in Vias :
      \E w \in (IF sch = "reg" THEN Withs ELSE {FALSE}) : \E ch \in (IF sch = "reg" THEN Chunks ELSE {Big}) :
+     \E lt \in (IF sch = "ocidir" /\ sv # c THEN BOOLEAN ELSE {FALSE}) :
         scn = [intended |-> c, size |-> sz, served |-> sv, data |-> d, scheme |-> sch, via |-> v,
-               with |-> w, chunk |-> ch]
+               with |-> w, chunk |-> ch, late |-> lt]
   /\ pc = "closed" /\ why = "open" /\ pend = NoPend /\ src = "none"
   /\ conn = [data |-> <<>>, end |-> "eof"]
   /\ readCur = 0 /\ readMax = 0 /\ rdone = FALSE /\ retry = 0 /\ backoff = 0
@@ -202,8 +207,8 @@ Open ==
           /\ UNCHANGED readMax
      ELSE IF scn.scheme = "ocidir"
      THEN /\ src' = "file" /\ pc' = "ready"
-          /\ conn' = [data |-> scn.served, end |-> "eof"]
-          /\ SetupReader(IF scn.size <= 0 THEN Len(scn.served) ELSE scn.size)
+          /\ conn' = [data |-> FileAtOpen, end |-> "eof"]
+          /\ SetupReader(IF scn.size <= 0 THEN Len(FileAtOpen) ELSE scn.size)
           /\ ret' = R("open", 0, "none")
           /\ UNCHANGED readMax
      ELSE /\ src' = "http" /\ pc' = "req"
